@@ -23,28 +23,16 @@ Definition nobs_eqb (a b : obs) : bool :=
   | _, _ => obs_eqb a b
   end.
 
-Fixpoint insert_all {A} (x : A) (l : list A) : list (list A) :=
-  match l with
-  | [] => [[x]]
-  | y :: r => (x :: y :: r) :: map (cons y) (insert_all x r)
-  end.
-Fixpoint perms {A} (l : list A) : list (list A) :=
-  match l with
-  | [] => [[]]
-  | x :: r => flat_map (insert_all x) (perms r)
-  end.
-
 Definition norm_obs (o : nopts) (g : gval) : obs := obs_of (fun v => v) (normalize o g).
 
-Definition model_outcomes (o : nopts) (kvs : list (gkey * gval)) : list obs :=
-  map (fun p => norm_obs o (GMap true p)) (perms kvs).
+(* the entries are listed in the order of one enumeration of the map; the model sorts them *)
+Definition model_outcome (o : nopts) (kvs : list (gkey * gval)) : obs := norm_obs o (GMap true kvs).
 
 Definition model_agrees (c : case) : bool :=
   match c with
   | CNorm o g obs => nobs_eqb (norm_obs o g) obs
   | CNormSet o kvs observed | CDup o kvs observed =>
-    let ms := model_outcomes o kvs in
-    forallb (fun ob => existsb (fun m => nobs_eqb m ob) ms) observed
+    forallb (nobs_eqb (model_outcome o kvs)) observed
   | CUnpack n u _ => opt_eqb otree_eqb (Some (strip_root n)) u
   | CSame _ _ _ => true
   | CRepeat _ _ => true
@@ -75,6 +63,20 @@ Definition data_equiv (a b : otree) : bool :=
 
 Definition is_dup (ob : obs) : bool :=
   match ob with OE EDuplicateKey _ => true | _ => false end.
+Definition is_rejected (ob : obs) : bool :=
+  match ob with OE _ _ => true | _ => false end.
+
+(* one key is given a scalar and another key extends it (a = 1 together with a.b = 2): the two
+   keys name different settings of incompatible shapes; the input must be rejected, as a
+   duplicate or as a type conflict *)
+Definition is_scalar (g : gval) : bool :=
+  match g with GMap _ _ | GList _ | GStruct _ | GCfg _ _ => false | _ => true end.
+Definition key_str (k : gkey) : string := match k with KStr s => s | KOther => "" end.
+Definition shape_conflict (sep : string) (kvs : list (gkey * gval)) : bool :=
+  existsb (fun kv => is_scalar (snd kv) &&
+                     existsb (fun kv2 => prefix (key_str (fst kv) +++ sep) (key_str (fst kv2))) kvs) kvs.
+Definition all_objects (kvs : list (gkey * gval)) : bool :=
+  forallb (fun kv => match snd kv with GMap _ _ => true | _ => false end) kvs.
 
 Definition prop_holds (c : case) : bool :=
   match c with
@@ -85,15 +87,16 @@ Definition prop_holds (c : case) : bool :=
   | CUnpack _ None _ => false
   | CSame _ (OV x) (OV y) => data_equiv (strip_root x) (strip_root y)   (* nil = empty *)
   | CSame _ _ _ => false
-  | CDup _ _ observed => forallb is_dup observed
+  | CDup o kvs observed =>
+    if shape_conflict (p_sep (n_p o)) kvs then forallb is_rejected observed else forallb is_dup observed
   | CRepeat _ _ => true
   end.
 
-(* known-finding signatures: 9 = one setting defined twice through overlapping spellings
-   (accepted or rejected depending on the enumeration order); 24 = unsupported kinds *)
+(* known-finding signatures: 9 = one setting defined twice through two object-valued spellings
+   (the two objects are merged silently); 24 = unsupported kinds *)
 Definition signature (c : case) : N :=
   match c with
-  | CDup _ _ _ => 9%N
+  | CDup _ kvs _ => if all_objects kvs then 9%N else 0%N
   | CNorm _ _ OPanic => 24%N
   | _ => 0%N
   end.
